@@ -61,6 +61,12 @@ def skip_discipline(prog, rep, R):
             if a0.startswith("strip_prefix(") and ",arg4)@Some.0" in a0:
                 allowed.add(true_tgt)
                 descr.append("stripped_line.is_empty()")
+        if nm in ("core::cmp::PartialEq::eq",) or nm.endswith("PartialEq>::eq"):
+            # `stripped_line == ""` (also what a `Some("")` pattern compiles to)
+            a0, a1 = canon(b, c.args[0]), canon(b, c.args[1])
+            if ((a0.startswith("strip_prefix(") and ",arg4)@Some.0" in a0 and a1 == "''") or (a1.startswith("strip_prefix(") and ",arg4)@Some.0" in a1 and a0 == "''")):
+                allowed.add(true_tgt)
+                descr.append("stripped_line.is_empty()")
     cyc = bfs_cycle(b, h, L, {dp.bb} | allowed)
     rep.check(cyc is None and len(allowed) == 2, R, "line-skipped-only-if-blank",
               "an interior line of a multi-line string can be left out of the rewritten literal under a condition other than "
@@ -155,7 +161,8 @@ def check_c12(prog, rep, tier, cfg):
         for bd in bodies:
             og = Origins(bd)
             for c in bd.calls():
-                if c.callee in ("alloc::string::String::push_str", "alloc::string::String::push") or (c.callee or "").endswith("Extend::extend"):
+                import layout as _layout2
+                if c.callee in ("alloc::string::String::push_str", "alloc::string::String::push") or (c.callee or "").endswith("Extend::extend") or _layout2.is_repeat_push_helper(prog, c.target):
                     if "String" not in bd.locals[c.args[0]["place"]["l"]]["ty"]:
                         continue
                     ao = og.of_operand(c.args[1])
@@ -173,7 +180,9 @@ def check_c12(prog, rep, tier, cfg):
                 for a in c.args:
                     if a["k"] in ("copy", "move") and not a["place"]["p"] and bd.locals[a["place"]["l"]]["ty"].replace("std::string::", "").replace("alloc::string::", "") in ("&mut String",):
                         nm += 1
-                        okm = c.callee in allowed_mut or (c.callee or "").endswith("Extend::extend") or (c.callee or "").endswith("Extend<&'a str>>::extend") or "as core::iter::traits::collect::Extend" in (c.callee or "")
+                        import layout as _layout
+                        okm = c.callee in allowed_mut or (c.callee or "").endswith("Extend::extend") or (c.callee or "").endswith("Extend<&'a str>>::extend") or "as core::iter::traits::collect::Extend" in (c.callee or "") \
+                            or _layout.is_repeat_push_helper(prog, c.target)
                         rep.check(okm, R, "mutator:%s" % (c.callee or "?").split("::")[-1], "the literal under construction is handed mutably to %s in %s — only push/push_str/extend of reviewed origin may build it" % (c.callee, short(bd.npath)), where=c.where(),
                                   instance={"mutator": (c.callee or "?").split("::")[-1], "in": short(bd.npath).split("::")[-1]})
         rep.floor(R, "mutable uses of the literal under construction", nm, 5)
@@ -211,60 +220,33 @@ def check_c12(prog, rep, tier, cfg):
                     bset = set(vals)
         rep.check(a == [10, 13] and bset == {10, 13}, R, "AGREE:interior-line-terminators", "lines_custom splits on %s but the lexer accepts %s after the opening quotes" % (a, sorted(bset)),
                   instance={"lines_custom": a, "lexer": sorted(bset)})
-        # the splitter closure is a two-state automaton over {CR, LF, other}: decide its complete transition table
-        from table import Table, TooComplex, vdesc, render
+        # the splitter closure is a two-state automaton over {CR, LF, other}: run its decision table on all six (state, class) inputs
+        from table import Table, TooComplex, vdesc, render, run_concrete, eval_desc, Unknown
         try:
-            tb = Table(prog, lcs[0])
+            tb = Table(prog, lcs[0], inline=2)
             trans = {}
             okp = True
-            for (cons, res), eff in zip(tb.rows, tb.effects):
-                skip = None
-                cls = None
-                eq10 = None
-                for c in cons:
-                    if c[0] != "cond":
-                        continue
-                    if c[1] == "arg1.0":
-                        skip = (c[2] != 0)
-                    elif c[1] == "arg2":
-                        cls = "CR" if c[2] == 13 else ("LF" if c[2] == 10 else "other")
-                    elif c[1] == "Eq(arg2,char:10)":
-                        eq10 = (c[2] != 0)
-                    elif c[1] == "Eq(arg2,char:13)":
-                        cls = cls or ("CR" if c[2] != 0 else None)
-                if eq10 is True:
-                    if cls not in (None, "LF"):
-                        continue  # infeasible path
-                    cls = "LF"
-                elif eq10 is False and cls == "LF":
-                    continue      # infeasible path
-                if skip is None:
-                    okp = False
-                    continue
-                classes = [cls] if cls else ["CR", "LF", "other"]
-                if eq10 is False and cls is None:
-                    classes = ["CR", "other"]
-                for cc in classes:
-                    newskip = skip
-                    for k, v in eff:
-                        if k == "arg1.0":
-                            d = vdesc(v)
-                            if d in ("True", "False"):
-                                newskip = (d == "True")
-                            elif d == "Eq(arg2,char:13)":
-                                newskip = (cc == "CR")
-                            else:
-                                okp = False
-                    r = render(res)
-                    if r not in ("True", "False"):
+            why = ""
+            for st in (False, True):
+                for cname, ch in (("CR", 13), ("LF", 10), ("other", 65)):
+                    env = {"arg1.0": st, "arg2": ch}
+                    try:
+                        res, eff = run_concrete(tb, env)
+                        out = eval_desc(vdesc(res), env)
+                        new = st
+                        for k, v in eff:
+                            if k == "arg1.0":
+                                new = bool(eval_desc(vdesc(v), env))
+                        trans[(st, cname)] = {(bool(out), new)}
+                    except Unknown as e:
                         okp = False
-                    trans.setdefault((skip, cc), set()).add((r == "True", newskip))
+                        why = "cannot evaluate: %s" % e
             want = {(False, "CR"): {(True, True)}, (False, "LF"): {(True, False)}, (False, "other"): {(False, False)},
                     (True, "CR"): {(True, True)}, (True, "LF"): {(False, False)}, (True, "other"): {(False, False)}}
             rep.check(okp and trans == want, R, "line-splitter-automaton",
-                      "the interior-line splitter (state: `previous char was CR`) has transition table %s; required: CR ends a line and arms the flag, LF ends a line unless the flag is armed, "
+                      "the interior-line splitter (state: `previous char was CR`) has transition table %s %s; required: CR ends a line and arms the flag, LF ends a line unless the flag is armed, "
                       "and the flag is cleared by every character other than CR (otherwise a bare LF after a CRLF is swallowed and a blank interior line disappears)"
-                      % {str(k): sorted(v) for k, v in sorted(trans.items(), key=str)},
+                      % ({str(k): sorted(v) for k, v in sorted(trans.items(), key=str)}, why),
                       where="%s:%d" % (lcs[0].file, lcs[0].line), instance={"transitions": {"%s,%s" % k: sorted(map(str, v)) for k, v in trans.items()}})
         except TooComplex as e:
             rep.fail(R, "line-splitter-automaton", "the line splitter closure is no longer loop-free: %s" % e)
